@@ -334,81 +334,101 @@ def dissipator_case(nm, it, dim, measured):
     return float(np.abs(S_emu - S_ref).max()), scale, ops
 
 
-def classify(nm, it, dim, measured):
-    """which (if any) known defect explains a dissipator mismatch of this model: drop the
-    suspected channel and see whether the rest agrees."""
-    from pulser.noise_model import NoiseModel
-    if dim != 3:
-        return None
-    causes = []
-    base = dict(relaxation_rate=nm.relaxation_rate if "relaxation" in nm.noise_types else None,
-                dephasing_rate=nm.dephasing_rate if "dephasing" in nm.noise_types else None,
-                depolarizing_rate=nm.depolarizing_rate if "depolarizing" in nm.noise_types else None)
-    base = {k: v for k, v in base.items() if v is not None}
+LINDBLAD = ("relaxation", "dephasing", "depolarizing", "eff_noise")
+
+
+def channel_view(nm, t):
+    """the noise model restricted to one channel (both get_lindblad_operators and pulser's builder only
+    read these attributes)"""
+    return types.SimpleNamespace(
+        noise_types=(t,), relaxation_rate=nm.relaxation_rate, dephasing_rate=nm.dephasing_rate,
+        hyperfine_dephasing_rate=nm.hyperfine_dephasing_rate, depolarizing_rate=nm.depolarizing_rate,
+        eff_noise_rates=tuple(nm.eff_noise_rates), eff_noise_opers=tuple(nm.eff_noise_opers))
+
+
+def channel_mismatches(nm, it, dim, measured):
+    """per Lindbladian channel: real operators vs pulser-core's for that channel alone, at the
+    dissipator level. -> list of pending records for every channel that disagrees (or raises)."""
+    pend = []
     perm = to_pulser(it, dim, measured)
-    # (a) eff operators alone
-    eff_only = NoiseModel(eff_noise_rates=list(nm.eff_noise_rates), eff_noise_opers=list(nm.eff_noise_opers), with_leakage=True)
-    r = dissipator_case(eff_only, it, dim, measured)
-    eff_bad = r is not None and r[0] != "err" and r[0] > 1e-12 * r[1]
-    if eff_bad and it == "ising":
-        causes.append(K_EFF)
-    # (b) everything but the eff operators' own dissipator: use a harmless eff operator (|x><x|, swap invariant)
-    xx = np.zeros((3, 3)); xx[2, 2] = 1.0
-    rest = NoiseModel(eff_noise_rates=[1.0], eff_noise_opers=[xx], with_leakage=True, **base)
-    r = dissipator_case(rest, it, dim, measured)
-    if r is not None and r[0] != "err" and r[0] > 1e-12 * r[1]:
-        nodeph = {k: v for k, v in base.items() if k != "dephasing_rate"}
-        r2 = dissipator_case(NoiseModel(eff_noise_rates=[1.0], eff_noise_opers=[xx], with_leakage=True, **nodeph), it, dim, measured)
-        if "dephasing_rate" in base and r2 is not None and r2[0] != "err" and r2[0] <= 1e-12 * r2[1]:
-            causes.append(K_DEPH)
+    for t in nm.noise_types:
+        if t not in LINDBLAD:
+            continue
+        view = channel_view(nm, t)
+        try:
+            ref = pulser_collapse_ops(view, it, dim)
+        except Exception:  # pulser refuses
+            continue
+        out, tape = run_impl(view, t, it, dim)
+        if out[0] != "ok":
+            pend.append(dict(nm=nm, view=view, it=it, dim=dim, t=t, out=out, tape=tape, diff=float("inf"), scale=1.0,
+                             msg=f"real get_lindblad_operators({t}) raised {out[1]} on a model pulser accepts"))
+            continue
+        S_emu, S_ref = superop(out[1], dim), superop(transport(ref, perm), dim)
+        scale = max(1.0, float(np.abs(S_ref).max()), float(np.abs(S_emu).max()))
+        diff = float(np.abs(S_emu - S_ref).max())
+        if diff > 1e-12 * scale:
+            pend.append(dict(nm=nm, view=view, it=it, dim=dim, t=t, out=out, tape=tape, diff=diff, scale=scale,
+                             msg=f"{t} channel: dissipator differs from pulser-core's by {diff:.3e} (scale {scale:.2e}) dim={dim} {it}"))
+    return pend
+
+
+def resolve_pending(rep: Report, pend: list, counts: dict) -> None:
+    """Known class ONLY when the real operators of the disagreeing channel are, entry by entry, those of
+    the as-found Lean model (`noise.get 0 …`: sqrt(G/2)·diag(1,−1,0) for dephasing, block-flip-only for
+    eff_noise) in dim 3; any other disagreeing operator is a new failure with its own class."""
+    if not pend:
+        return
+    lines = [model_line_get(0, q["view"], q["t"], q["it"], q["dim"], q["tape"]) for q in pend]
+    try:
+        mo = Driver().batch(lines)
+    except LeanError as e:
+        rep.broke("driver (classification): " + str(e)[-600:])
+        mo = [None] * len(lines)
+    shown = {K_EFF: 0, K_DEPH: 0}
+    for q, o in zip(pend, mo):
+        is_asfound = o is not None and q["out"][0] == "ok" and same(parse_model(o, q["dim"]), q["out"])
+        if is_asfound and q["dim"] == 3 and q["t"] == "dephasing":
+            klass = K_DEPH
+        elif is_asfound and q["dim"] == 3 and q["t"] == "eff_noise" and q["it"] == "ising":
+            klass = K_EFF
         else:
-            causes.append(None)
-    del perm
-    return causes
+            klass = f"C24-{q['t']}-dim{q['dim']}-{q['it']}-unexpected-operator"
+        key = {K_EFF: "mismatch_known_eff", K_DEPH: "mismatch_known_deph"}.get(klass, "mismatch_new")
+        counts[key] = counts.get(key, 0) + 1
+        if klass in shown:
+            shown[klass] += 1
+            if shown[klass] > 4 and not q.get("witness"):
+                continue
+        data = dict(_ser_model(q["nm"], q["it"], q["dim"]), channel=q["t"], matches_as_found_model=bool(is_asfound),
+                    real_operators=[_ser(x) for x in q["out"][1]] if q["out"][0] == "ok" else q["out"][1])
+        if q.get("witness"):
+            data["witness"] = q["witness"]
+        rep.fail(q["msg"] + ("" if is_asfound else " — operator is NOT the as-found one"), data, klass=klass)
 
 
 # ------------------------------------------------------------------ Lean witnesses on the real code
-def witness_eff(measured):
-    """A = E20 = Pulser's |x><r|, rate 1 (Props.C24.effnoise_dim3_counterexample)."""
+def witness_models():
+    """the two kernel-checked counterexamples as real NoiseModels"""
     from pulser.noise_model import NoiseModel
     A = np.zeros((3, 3)); A[2, 0] = 1.0
-    nm = NoiseModel(eff_noise_rates=[1.0], eff_noise_opers=[A], with_leakage=True)
-    (tag, ops), _ = run_impl(nm, "eff_noise", "ising", 3)
-    if tag != "ok":
-        return f"real code raised {ops}", None
-    perm = to_pulser("ising", 3, measured)
-    want = transport([A.astype(complex)], perm)[0]
-    got = ops[0]
-    if not np.array_equal(got, want):
-        e_r, e_g, e_x = perm.index(0), perm.index(1), perm.index(2)
-        return (f"eff_noise operator |x><r| (Pulser E[2,0]=1, rate 1) comes out with its 1 at emulator entry "
-                f"{tuple(int(v) for v in np.argwhere(got != 0)[0])} = |x><g| instead of ({e_x},{e_r}) = |x><r| "
-                f"(emulator order g={e_g}, r={e_r}, x={e_x})"), dict(got=_ser(got), want=_ser(want))
-    return None, None
-
-
-def witness_deph(measured):
-    """Gamma = 2, dim 3, rho = (|g>+|x>)(<g|+<x|) (Props.C24.dephasing_dim3_counterexample)."""
-    from pulser.noise_model import NoiseModel
     xx = np.zeros((3, 3)); xx[2, 2] = 1.0
-    nm = NoiseModel(dephasing_rate=2.0, eff_noise_rates=[0.0], eff_noise_opers=[xx], with_leakage=True)
-    (tag, ops), _ = run_impl(nm, "dephasing", "ising", 3)
-    if tag != "ok":
-        return f"real code raised {ops}", None
-    perm = to_pulser("ising", 3, measured)
-    e_g, e_x = perm.index(1), perm.index(2)
-    rho = np.zeros((3, 3), dtype=complex)
-    for a in (e_g, e_x):
-        for b in (e_g, e_x):
-            rho[a, b] = 1.0
-    ref = transport([np.sqrt(2 * 2.0) * np.diag([1.0, 0, 0]).astype(complex)], perm)  # sqrt(2Γ)|r><r| in Pulser order
-    d_emu = (superop(ops, 3) @ rho.reshape(-1)).reshape(3, 3)
-    d_ref = (superop(ref, 3) @ rho.reshape(-1)).reshape(3, 3)
-    if abs(d_emu[e_g, e_x] - d_ref[e_g, e_x]) > 1e-12:
-        return (f"dephasing, dim 3, rate 2: d/dt rho_gx = {d_emu[e_g, e_x].real:+.3f} under the emulator's operator, "
-                f"{d_ref[e_g, e_x].real:+.3f} under Pulser's sqrt(2G)|r><r| (coherence between g and the leakage level)"), \
-            dict(emu=_ser(d_emu), pulser=_ser(d_ref))
-    return None, None
+    return [("effnoise_dim3_counterexample", NoiseModel(eff_noise_rates=[1.0], eff_noise_opers=[A], with_leakage=True), "eff_noise"),
+            ("dephasing_dim3_counterexample", NoiseModel(dephasing_rate=2.0, eff_noise_rates=[0.0], eff_noise_opers=[xx],
+                                                         with_leakage=True), "dephasing")]
+
+
+def witness_pending(measured):
+    """A = E20 = Pulser's |x><r|, rate 1 (entry (x,g) instead of (x,r));  Gamma = 2, dim 3 (d/dt rho_gx = -G/4
+    instead of 0). Returned as pending records so that they are classified like every other mismatch."""
+    pend = []
+    for name, nm, t in witness_models():
+        for q in channel_mismatches(nm, "ising", 3, measured):
+            if q["t"] == t:
+                q["witness"] = name
+                q["msg"] = f"Lean witness {name} replayed on the real code: " + q["msg"]
+                pend.append(q)
+    return pend
 
 
 def _ser(a):
@@ -517,13 +537,8 @@ def check(rep: Report, tier: str, seed: int) -> None:
     # ---- property oracle on the real code: dissipators vs pulser-core ------------------
     dissipator_oracle(rep, rng, measured, 250 if tier == "quick" else 6000)
 
-    # ---- Lean witnesses replayed on the real code -------------------------------------
-    msg, data = witness_eff(measured)
-    if msg:
-        rep.fail(msg, {"witness": "effnoise_dim3_counterexample", **(data or {})}, klass=K_EFF)
-    msg, data = witness_deph(measured)
-    if msg:
-        rep.fail(msg, {"witness": "dephasing_dim3_counterexample", **(data or {})}, klass=K_DEPH)
+    # ---- Lean witnesses replayed on the real code (classified like any other mismatch) ---
+    resolve_pending(rep, witness_pending(measured), rep.extra.setdefault("witness_classes", {}))
 
     if rep.broken and not rep.failing:
         dissipator_oracle(rep, seeded(seed * 104729 + 24), measured, 3000 if tier == "quick" else 30000)
@@ -531,10 +546,12 @@ def check(rep: Report, tier: str, seed: int) -> None:
 
 def dissipator_oracle(rep: Report, rng, measured, n: int) -> None:
     """The statement of C24 on the real code: total dissipator of the returned operators ==
-    dissipator of pulser-core's collapse operators in the emulator's ordering (tolerance
-    1e-12 x scale: products of at most two O(1) entries and a correctly rounded sqrt — a few ulp)."""
+    dissipator of pulser-core's collapse operators in the emulator's ordering, and the same channel
+    by channel (tolerance 1e-12 x scale: products of at most two O(1) entries and a correctly rounded
+    sqrt — a few ulp). Disagreeing channels are classified by the actual operator matrix."""
     worst = 0.0
     counts = {"compared": 0, "refused_by_pulser": 0, "mismatch_known_eff": 0, "mismatch_known_deph": 0, "mismatch_new": 0}
+    pend = []
     for i in range(n):
         it = rng.choice(["ising", "ising", "XY"])
         dim = rng.choice([2, 3])
@@ -554,20 +571,15 @@ def dissipator_oracle(rep: Report, rng, measured, n: int) -> None:
         diff, scale, _ = r
         counts["compared"] += 1
         rep.hist("oracle_dim_it", f"{dim}{it}")
+        ch = channel_mismatches(nm, it, dim, measured)
+        pend += ch
         if diff <= 1e-12 * scale:
             worst = max(worst, diff / scale)
-            continue
-        causes = classify(nm, it, dim, measured) or [None]
-        for c in causes:
-            if c == K_EFF:
-                counts["mismatch_known_eff"] += 1
-            elif c == K_DEPH:
-                counts["mismatch_known_deph"] += 1
-            else:
-                counts["mismatch_new"] += 1
-            if c is None or counts["mismatch_known_eff"] + counts["mismatch_known_deph"] <= 6:
-                rep.fail(f"dissipator differs from pulser-core's by {diff:.3e} (scale {scale:.2e}) dim={dim} {it}",
-                         _ser_model(nm, it, dim), klass=c)
+        elif not ch:
+            counts["mismatch_new"] += 1
+            rep.fail(f"total dissipator differs from pulser-core's by {diff:.3e} (scale {scale:.2e}) dim={dim} {it} "
+                     f"although every channel agrees on its own", _ser_model(nm, it, dim))
+    resolve_pending(rep, pend, counts)
     rep.extra["dissipator_oracle"] = counts
     rep.extra["dissipator_worst_rel_diff_on_agreeing_cases"] = worst
 
@@ -585,9 +597,8 @@ def replay(rep: Report, path: str) -> int:
     bad = 0
     for f in data.get("failing_inputs", []):
         d = f["data"]
-        if "witness" in d:
-            msg, _ = (witness_eff if d["witness"].startswith("eff") else witness_deph)(measured)
-        elif "noise_types" in d:
+        msg = None
+        if "noise_types" in d:
             kw = {}
             for k in ("relaxation", "dephasing", "depolarizing"):
                 if k in d["noise_types"]:
@@ -597,10 +608,13 @@ def replay(rep: Report, path: str) -> int:
                 kw["eff_noise_opers"] = [np.array([[complex(*z) for z in row] for row in o]) for o in d["eff_noise_opers"]]
             if d["dim"] == 3:
                 kw["with_leakage"] = True
-            r = dissipator_case(NoiseModel(**kw), d["it"], d["dim"], measured)
-            msg = None if (r is None or (r[0] != "err" and r[0] <= 1e-12 * r[1])) else f"dissipator still differs: {r[:2]}"
-        else:
-            msg = None
+            nm = NoiseModel(**kw)
+            ch = channel_mismatches(nm, d["it"], d["dim"], measured)
+            r = dissipator_case(nm, d["it"], d["dim"], measured)
+            if ch:
+                msg = "; ".join(q["msg"] for q in ch)
+            elif r is not None and (r[0] == "err" or r[0] > 1e-12 * r[1]):
+                msg = f"total dissipator still differs: {r[:2]}"
         print("replay:", msg or "property holds on this input now")
         bad += bool(msg)
     return 1 if bad else 0
